@@ -61,8 +61,8 @@ def run(res, f, tier):
             froms.append((d, b, im))
         if im.get("trait") == "std::convert::TryFrom" and im["trait_args"] == [VALUE] and b["name"] == "try_from":
             tryfroms.append((d, b, im))
-    res.floor("From<_> for Value impls", len(froms), 22)
-    res.floor("TryFrom<Value> for _ impls", len(tryfroms), 21)
+    res.floor("From<_> for Value impls", len(froms), 18)
+    res.floor("TryFrom<Value> for _ impls", len(tryfroms), 17)
     obligations = discharged = 0
     samples = []
 
